@@ -66,7 +66,14 @@ def build(node, nm=None, use_terms=False, memo=None):
     from data_algebra.view_representations import TableDescription
 
     if memo is None:
+        # top-level call: with Term objects, one expression object used in two places of the recipe stays one object
         memo = {}
+        if use_terms and core.TERM_MEMO is None:
+            core.TERM_MEMO = {}
+            try:
+                return build(node, nm, use_terms, memo)
+            finally:
+                core.TERM_MEMO = None
     if id(node) in memo:
         return memo[id(node)]
     op = node["op"]
